@@ -6,6 +6,7 @@ CONSTANTS
   MaxInst = 1
   NZ = 1
   MaxReq = 3
+  MaxPureTaken = 8
   NForeign = 1
   CJ = FALSE
 INIT Init
